@@ -60,6 +60,13 @@ impl<K> KeyDate<K> {
     }
 }
 
+#[cfg(mini_moka_verif)]
+impl<K> KeyDate<K> {
+    pub(crate) fn verif_entry_info(&self) -> &EntryInfo<K> {
+        &self.entry_info
+    }
+}
+
 pub(crate) struct KeyHashDate<K> {
     key: Arc<K>,
     hash: u64,
